@@ -90,6 +90,10 @@ func runC15(c *fw.Ctx) {
 					d = 1 / (c * c)
 				} else {
 					x.Data[e] = sign * (8 + 22*r.Float64())
+					if r.Intn(4) == 0 {
+						// |x| = 355.2..357.5: s(1-s) = 2.5e-155 is an ordinary double although e^|x| squared is beyond the range
+						x.Data[e] = sign * (355.2 + 2.3*r.Float64())
+					}
 					ex := math.Exp(-math.Abs(x.Data[e]))
 					d = ex / ((1 + ex) * (1 + ex))
 				}
@@ -126,6 +130,54 @@ func runC15(c *fw.Ctx) {
 			}
 			if e := rt.Compare(gr, want, 1e-9, 1e-6, nil, 0); e != nil {
 				k.Failf("%s at saturated inputs (|x| = 8..30) under a weighting of the size of 1/derivative: %v", sp.name, e)
+			}
+		})
+	}
+	// ---- upstream weightings at the top of the range (1..1.7e308 in magnitude) arriving at Relu / LeakyRelu(|m| <= 1) over ordinary inputs:
+	// the input receives the weighting itself (times 1 or m), a finite number ----
+	for i := 0; i < c.Pick(300, 6000); i++ {
+		c.Case(func(k *fw.K) {
+			r := k.Rng
+			shape := RandShape(r, 0, 2, 3)
+			var cands []actSpec
+			for _, q := range actSpecs(len(shape)) {
+				if q.in.Op == "relu" || (q.in.Op == "leakyrelu" && math.Abs(q.in.F) <= 1) {
+					cands = append(cands, q)
+				}
+			}
+			sp := cands[r.Intn(len(cands))]
+			x, g := ref.Zeros(shape), ref.Zeros(shape)
+			for e := range x.Data {
+				x.Data[e] = (0.5 + 2.5*r.Float64()) * []float64{1, -1}[r.Intn(2)]
+				g.Data[e] = (1 + 0.7*r.Float64()) * 1e308 * []float64{1, -1}[r.Intn(2)]
+			}
+			obj, err := sp.mk()
+			if err != nil {
+				k.Failf("%s: constructor: %v", sp.name, err)
+				return
+			}
+			k.Case = gcase{In: sp.in, Ops: []*ref.T{x}, Tracked: []bool{true}, G: g}
+			k.Key("huge-weighting/%s/%s", sp.name, shapeKey(shape))
+			k.Count("huge_weighting_cases", 1)
+			rx := rt.MustLeaf(x, true)
+			var y tensor.Tensor
+			if p := call(func() {
+				if y, err = obj.Forward(rx); err == nil {
+					err = weightedBackprop(y, g)
+				}
+			}); p != nil || err != nil || y == nil {
+				k.Failf("%s under a weighting of 1e308: panic=%v err=%v", sp.name, p, err)
+				return
+			}
+			yv, _ := ref.Apply(sp.in, []*ref.T{x})
+			want := ref.VJP(sp.in, []*ref.T{x}, yv, g, ref.RuleSum)[0]
+			gr := rx.Gradient()
+			if gr == nil {
+				k.Failf("%s under a weighting of 1e308: the input received no gradient", sp.name)
+				return
+			}
+			if e := rt.Compare(gr, want, 0, 1e-12, nil, 0); e != nil {
+				k.Failf("%s over ordinary inputs under weightings of 1..1.7e308 (the derivative is 1 or m with |m| <= 1: the gradient is finite): %v", sp.name, e)
 			}
 		})
 	}
